@@ -30,6 +30,8 @@ const (
 	kReturn
 	kCall
 	kExitnum
+	kSeq // statements inlined into the enclosing block
+	kFor // for { $i=0; $i<n; $i++ } { body }
 )
 
 type node struct {
@@ -80,6 +82,13 @@ func render(sb *strings.Builder, ns []node, indent string) {
 			sb.WriteString(x.label + "\n")
 		case kExitnum:
 			sb.WriteString("exitnum\n")
+		case kSeq:
+			sb.WriteString("\n")
+			render(sb, x.body, indent)
+		case kFor:
+			sb.WriteString(fmt.Sprintf("for { $n=0; $n<%d; $n++ } {\n", x.n))
+			render(sb, x.body, indent+"  ")
+			sb.WriteString(indent + "}\n")
 		}
 	}
 }
@@ -152,6 +161,23 @@ func (r *ref) exec(ns []node) signal {
 					return s
 				}
 			}
+		case kSeq:
+			if s := r.exec(x.body); s.kind != 0 {
+				return s
+			}
+		case kFor:
+			for i := 0; i < x.n; i++ {
+				s := r.exec(x.body)
+				if s.kind == kBreak && s.name == "for" {
+					break
+				}
+				if s.kind == kContinue && s.name == "for" {
+					continue
+				}
+				if s.kind != 0 {
+					return s
+				}
+			}
 		case kBreak, kContinue:
 			return signal{kind: x.kind, name: x.label}
 		case kReturn:
@@ -195,7 +221,11 @@ func jumpNode(j jump) node {
 }
 
 // the conditional jump: if { cond } then { out p ; JUMP ; out q }
-func cj(j jump) node {
+func cj(j jump, bare bool) node {
+	if bare {
+		// unconditional: out p ; JUMP ; out q directly in the enclosing block
+		return node{kind: kSeq, body: []node{out("p"), jumpNode(j), out("q")}}
+	}
 	return node{kind: kIf, body: []node{out("p"), jumpNode(j), out("q")}}
 }
 
@@ -233,6 +263,13 @@ var shapes = []shape{
 			{"fnF", []node{out("a"), {kind: kForeach, n: 2, body: []node{out("b"), {kind: kCall, label: "fnG"}, {kind: kExitnum}, out("c")}}, out("d")}},
 		}
 	}},
+	{"for in function", []string{"fnF", "for"}, func(j node) []function {
+		return []function{{"fnF", []node{out("a"), {kind: kFor, n: 2, body: []node{out("b"), j, out("c")}}, out("d")}}}
+	}},
+	{"foreach in for", []string{"fnF", "for", "foreach"}, func(j node) []function {
+		return []function{{"fnF", []node{out("a"), {kind: kFor, n: 2, body: []node{out("b"),
+			{kind: kForeach, n: 2, body: []node{out("c"), j, out("d")}}, out("e")}}, out("f")}}}
+	}},
 	{"plain function", []string{"fnF"}, func(j node) []function {
 		return []function{{"fnF", []node{out("a"), j, out("b")}}}
 	}},
@@ -247,6 +284,8 @@ var jumps = []jump{
 	{kContinue, "while", 0},
 	{kReturn, "", 0},
 	{kReturn, "", 3},
+	{kBreak, "for", 0},
+	{kContinue, "for", 0},
 }
 
 var (
@@ -264,10 +303,11 @@ func VerifC39Jumps() {
 	next = 0
 	si := rt.Choice("shape", len(shapes))
 	ji := rt.Choice("jump", len(jumps))
+	bare := rt.Choice("bare", 2) == 1
 	sh := shapes[si]
 	j := jumps[ji]
 	inner := sh.blocks[0]
-	if si == 6 {
+	if sh.blocks[0] == "fnG" {
 		inner = "fnG"
 	}
 	if j.name == "FUNC" {
@@ -275,7 +315,7 @@ func VerifC39Jumps() {
 	}
 	// the statement speaks of a block "called name" enclosing the jump: other targets are left out
 	// (`break if` always has one: the conditional jump's own if)
-	if j.kind != kReturn && j.name != "if" {
+	if j.kind != kReturn && (j.name != "if" || bare) {
 		found := false
 		for _, b := range sh.blocks {
 			if b == j.name {
@@ -284,7 +324,9 @@ func VerifC39Jumps() {
 		}
 		rt.Assume(found)
 	}
-	funcs := sh.build(cj(j))
+	// known defect: `continue <loop>` written directly in the loop's block (not inside an if) does nothing
+	rt.KnownFinding("C39-continue-direct-child", bare && j.kind == kContinue && j.name == sh.blocks[len(sh.blocks)-1])
+	funcs := sh.build(cj(j, bare))
 
 	lang.DefineFunction("v39c", func(p *lang.Process) error {
 		mu.Lock()
